@@ -12,6 +12,15 @@ CHECKS = {
             "bounded-exhaustive acceptance (all words <= 5/6 steps) + traced execution of accepted words + "
             "check/run histories; beyond the bound: sampled", "3 C01"),
 }
+CHECKS.update({
+    "C05": ("executable model (declarative parameter-domain table) evaluated on every check_conf call of the "
+            "workload; deep-comparison monitors for mutation, order, defaults and idempotence",
+            "complete over the table rows x boundary/wrong-type values, sampled combinations, shuffled orders, "
+            "two entry points; don't-care cells never judged", "3 C05"),
+    "C20": ("executable model (margin table) + icontract class invariant on GlobalMargins evaluated on every "
+            "mutation during the workload; monotonicity relation over one-step extensions",
+            "all accepted words <= 4/5 steps x parameter draws, with and without validation, step 1-3, CLI runs", "3 C20"),
+})
 NOTES = {}
 
 def main():
